@@ -43,6 +43,9 @@ Inductive fault :=
 | FResetBefore        (* connection reset, request never processed *)
 | FResetAfter         (* request processed, connection reset, no reply bytes *)
 | FResetAfterReply    (* request processed, full reply delivered, then connection reset *)
+| FResetDelivered     (* request delivered into the server's buffer, then connection reset BEFORE the server
+                         handles it: the server still reads and executes the request (exactly once), its
+                         reply cannot be sent *)
 | FStale (k : nat)    (* the k-th most recent earlier reply is replayed in front of the real one *)
 | FDup                (* the reply is delivered twice *)
 | FAlterSeq (d : N)   (* the sequence number of the reply is changed by d (mod 2^16) *)
@@ -101,7 +104,7 @@ Definition connect (st : state) (f : fault) : err + conn :=
   | FDup => inr (mkConn [mkReply (p_seq st) 0 RResult false (p_req st)] [] false false)
   | FResetAfterReply => inr (mkConn [] [] true false)
   | FDropReq | FDropReply | FDelay => inl ETimeout
-  | FCut | FResetBefore | FResetAfter => inl EClosed
+  | FCut | FResetBefore | FResetAfter | FResetDelivered => inl EClosed
   | FStale k => match nth_error (s_replies st) k with Some _ => inl EProtocol | None => inr empty_conn end
   | FWrongType => inl EProtocol
   end.
@@ -124,7 +127,7 @@ Definition arrive (f : fault) (own olds : list reply) : list reply * list reply 
   | FDup => (own ++ own, [], false)
   | FAlterSeq d => (map (fun r => set_seq ((r_seq r + d) mod M16) r) own, [], false)
   | FWrongType => (map set_badtype own, [], false)
-  | FDropReq | FResetBefore => ([], [], false)
+  | FDropReq | FResetBefore | FResetDelivered => ([], [], false)   (* handled in [serve] *)
   end.
 
 Record att := mkAtt { a_res : err + outcome; a_st : state; a_fs : list fault }.
@@ -148,6 +151,7 @@ Definition serve (k : kind) (tok seq' req' : N) (pre : list reply) (c : conn) (l
     match f with
     | FDropReq => (mkConn pre [] false false, log, reps, fs')
     | FResetBefore => (mkConn pre [] true false, log, reps, fs')
+    | FResetDelivered => (mkConn pre [] true false, tok :: log, reps, fs')   (* executed; no reply was ever sent *)
     | _ =>
       let own := own_reply k tok seq' req' in
       let '(q, dl, br) := arrive f own reps in
